@@ -13,13 +13,16 @@ package web
 //@ func InitStore
 //@   assigns sessionStore
 //@   ensures[C18] keys: len(sessionKey) >= 32 && len(encryptionKey) >= 32
+//@   ensures[C10] store: sessionStore != nil
 //@   nopanic[C10]
 
 // ---------------------------------------------------------------- authentication middleware (C05)
 
 //@ define reqId(r) = dyn(ctxval(reqctx(r), identity.CTXKey), ptr(identity.User))
 //@ define reqHasId(r) = typeIs(ctxval(reqctx(r), identity.CTXKey), ptr(identity.User)) && reqId(r) != nil && reqId(r).attributes != nil
-//@ define freshResponse() = !#nextCalled && #status == 0 && #wwwAuth == 0
+//@ define freshResponse() = !#nextCalled && #status == 0 && #wwwAuth == 0 && #httpErrors == 0
+// every pending login state maps to the URL string it was issued for
+//@ define stateInv(o) = o.stateStore != nil && o.stateStore.cache != nil && (forall k string :: cacheHas(o.stateStore.cache, k) ==> typeIs(cacheVal(o.stateStore.cache, k), string))
 
 //@ func (*BasicAuthHandler).authenticate
 //@   requires[C10] wf: h != nil
@@ -76,4 +79,65 @@ package web
 //@ func NoAuthz
 //@   requires[C10] r.Header != nil
 //@   ensures[C05] iff: result == (r.Header.Get("Authorization") == "")
+//@   nopanic[C10]
+
+// ---------------------------------------------------------------- sessions and request identity (C04, C13)
+
+//@ func GetSession
+//@   requires[C10] store: sessionStore != nil
+//@   ensures[C13] ok: result1 == nil ==> result0 != nil && result0.Values != nil && result0.Options != nil
+//@   ensures[C13] slot: result1 == nil ==> result0.Values[box("RDPGWID")] == nil || typeIs(result0.Values[box("RDPGWID")], bytes)
+//@   nopanic[C10]
+
+//@ func GetSessionIdentity
+//@   requires[C10] store: sessionStore != nil
+//@   assigns #gobDecoded
+//@   ensures[C13] restored: result0 != nil ==> typeIs(result0, ptr(identity.User)) && dyn(result0, ptr(identity.User)) != nil && fresh(dyn(result0, ptr(identity.User))) && dyn(result0, ptr(identity.User)).attributes != nil
+//@   nopanic[C10]
+
+//@ func SaveSessionIdentity
+//@   requires[C10] wf: sessionStore != nil && id != nil && dyn(id, ptr(identity.User)) != nil
+//@   assigns region(gorilla_sessions.Options.MaxAge), region(map:Iface:iface), #gobEncoded, #sessionSaves
+//@   ghostset #savedId = id
+//@   ensures[C13] unchangedIdentity: dyn(id, ptr(identity.User)).authenticated == old(dyn(id, ptr(identity.User)).authenticated) && dyn(id, ptr(identity.User)).userName == old(dyn(id, ptr(identity.User)).userName) && dyn(id, ptr(identity.User)).attributes == old(dyn(id, ptr(identity.User)).attributes)
+//@   nopanic[C10]
+
+//@ func EnrichContext$1
+//@   requires[C10] wf: next != nil && *next != nil && sessionStore != nil && r.Header != nil
+//@   requires start: freshResponse()
+//@   assigns *
+//@   ensures[C10] identity: #nextCalled ==> reqHasId(#nextReq) && mapHas(reqId(#nextReq).attributes, "remoteAddr") && typeIs(reqId(#nextReq).attributes["remoteAddr"], string) && mapHas(reqId(#nextReq).attributes, "clientIp") && typeIs(reqId(#nextReq).attributes["clientIp"], string)
+//@   ensures[C04] clientAddress: #nextCalled && r.Header.Get("X-Forwarded-For") == "" ==> reqId(#nextReq).attributes["clientIp"] == box(nth(0, net.SplitHostPort(r.RemoteAddr)))
+//@   ensures[C04] remoteAddress: #nextCalled ==> reqId(#nextReq).attributes["remoteAddr"] == box(r.RemoteAddr)
+//@   nopanic[C10]
+
+// ---------------------------------------------------------------- OpenID Connect (C12, C13)
+
+//@ func (*OIDCConfig).New
+//@   ensures[C13] stateLifetime: result != nil && result.stateStore != nil && result.stateStore.cache != nil && cacheTTL(result.stateStore.cache) == 120000000000
+//@   ensures[C13] wiring: result.oAuth2Config == c.OAuth2Config && result.oidcTokenVerifier == c.OIDCTokenVerifier
+//@   nopanic[C10]
+
+//@ func findUsernameInClaims
+//@   loop 0 invariant first: rangeindex >= 0 ==> !typeIs(data["preferred_username"], string)
+//@   ensures[C13] order: typeIs(data["preferred_username"], string) ==> result == dyn(data["preferred_username"], string)
+//@   nopanic[C10]
+
+//@ func (*OIDC).Authenticated$1
+//@   requires[C10] wf: h != nil && *h != nil && stateInv(*h) && (*h).oAuth2Config != nil && next != nil && *next != nil && reqHasId(r)
+//@   requires start: freshResponse()
+//@   assigns *
+//@   ensures[C13] states: stateInv(*h)
+//@   ensures[C12] gate: #nextCalled ==> reqId(r).authenticated && #nextReq == r
+//@   ensures[C12] redirect: !reqId(r).authenticated ==> !#nextCalled && (#status == 302 || #status == 500)
+//@   ensures[C13] stateIssued: #status == 302 ==> cacheLastSetTTL((*h).stateStore.cache) == 0 && cacheHas((*h).stateStore.cache, #authURLState)
+//@   nopanic[C10]
+
+//@ func (*OIDC).HandleCallback
+//@   requires[C10] wf: h != nil && stateInv(h) && h.oAuth2Config != nil && h.oidcTokenVerifier != nil && reqHasId(r) && sessionStore != nil
+//@   requires start: freshResponse() && !reqId(r).authenticated
+//@   assigns *
+//@   ensures[C13] gate: reqId(r).authenticated ==> #exchangeOK && #verifyOK && reqId(r).userName != "" && #httpErrors == old(#httpErrors)
+//@   site SaveSessionIdentity requires[C13] onlyVerified: #exchangeOK && #verifyOK && userName != "" && #httpErrors == 0 && reqId(r).userName == userName
+//@   site (*github.com/coreos/go-oidc/v3/oidc.IDTokenVerifier).Verify requires[C13] afterExchange: #exchangeOK && #httpErrors == 0
 //@   nopanic[C10]
